@@ -951,6 +951,9 @@ def _corr_kinds(ctx: Ctx, ag, ang, bg):
         def impl(m=m, pts=pts, wts=wts, rsect=rsect, radius=radius, dsec=dsec, ssec=ssec, ckind=ckind, rot=rot, cen=cen):
             conv = {"list": list, "int64": lambda x: np.array(x, dtype=np.int64), "tuple": tuple}[ckind]
             rconv = {"list": list, "int64": np.array, "tuple": tuple}[ckind]
+            if rot % 2:  # r_sectors / d_sectors positionally
+                return AtomGrid.from_pruned(_onedgrid(bg, pts, wts), radius, rconv(rsect), None if dsec is None else conv(dsec),
+                                            s_sectors=None if ssec is None else conv(ssec), center=cen, rotate=rot, method=m)
             return AtomGrid.from_pruned(_onedgrid(bg, pts, wts), radius, r_sectors=rconv(rsect), d_sectors=None if dsec is None else conv(dsec),
                                         s_sectors=None if ssec is None else conv(ssec), center=cen, rotate=rot, method=m)
 
@@ -1165,6 +1168,8 @@ def _corr_round3(ctx: Ctx, ag, ang, bg):
                 kw["center"] = cen
             if rot_kind != "default":
                 kw["rotate"] = bool(rot_val) if rot_kind == "bool" else int(rot_val)
+            if set(kw) == {"method", "rgrid", "center", "rotate"} and (z + len(p)) % 2:  # every argument positionally (method included)
+                return AtomGrid.from_preset(z, p, kw["rgrid"], kw["center"], kw["rotate"], kw["method"])
             return AtomGrid.from_preset(z, p, **kw)
 
         a = Ans(line)
@@ -1400,6 +1405,7 @@ def oracle(ctx: Ctx, budget: str):
     rng = ctx.rng
     _oracle_kinds(ctx, ag, ang, bg, budget)
     _oracle_round3(ctx, ag, ang, bg, budget)
+    _oracle_combinations(ctx, ag, ang, bg, budget)
     # ---- random grids -----------------------------------------------------------------------
     for k in range(24 if budget == "small" else 400):
         method = METHODS[k % 4]
@@ -1821,6 +1827,176 @@ def _oracle_round3(ctx: Ctx, ag, ang, bg, budget):
              + "; fresh on every read: points; fresh object on every call: get_shell_grid")
 
 
+# ----------------------------------------------------------------------------
+# every documented argument combination of the constructors, each against the shell-by-shell reference
+# ----------------------------------------------------------------------------
+SNIP_COMBO = SNIP_HEAD + """from scipy.spatial.transform import Rotation
+pts, wts = {pts}, {wts}
+method, seed, center = {method!r}, {seed}, np.array({center!r})
+rgrid = None if pts is None else OneDGrid(np.array(pts), np.array(wts), (0, np.inf))
+what = {what!r}
+built = True
+try:
+    g = {call}
+except ValueError as e:
+    built = False
+    assert {may_reject}, f'{{what}}: raises ValueError: {{e}}'
+if built:
+    # per shell (degree, size): the smallest supported grid not below the request the documentation says is used
+    want = {want!r}
+    rp, rw = (g.rgrid.points, g.rgrid.weights) if pts is None else (np.array(pts), np.array(wts))
+    idx = [int(x) for x in g.indices]
+    assert len(idx) == len(want) + 1 == len(rp) + 1 and idx[0] == 0 and idx[-1] == g.size, f'{{what}}: {{len(idx) - 1}} shells on {{len(rp)}} radial points'
+    for i, (d, s) in enumerate(want):
+        assert int(g.degrees[i]) == d and idx[i + 1] - idx[i] == s, (
+            f'{{what}}: shell {{i}} at r={{rp[i]!r}} has degree {{int(g.degrees[i])}} / {{idx[i + 1] - idx[i]}} points, the documented request resolves to degree {{d}} / {{s}} points')
+        a = AngularGrid(degree=d, method=method)
+        R = Rotation.random(random_state=seed + i).as_matrix() if seed else np.eye(3)
+        rel = rp[i] * (a.points @ R)
+        tol = 1e-11 * max(rp[i], abs(center).max()) + 1e-11 * rp[i] + 1e-300
+        assert np.all(abs(g.points[idx[i]:idx[i + 1]] - (center + rel)) <= tol), f'{{what}}: shell {{i}}: points are not centre + r_i (u_j R_i), seed {{seed}}+{{i}}'
+        ww = a.weights * rw[i] * rp[i] ** 2
+        assert np.all(abs(g.weights[idx[i]:idx[i + 1]] - ww) <= 1e-12 * abs(ww) + 2e-323), f'{{what}}: shell {{i}}: weights are not w_i r_i^2 omega_j'
+        sg = g.get_shell_grid(i)
+        assert np.all(abs(sg.points - rel) <= 1e-11 * rp[i] + 1e-300) and np.all(abs(sg.weights - ww) <= 1e-12 * abs(ww) + 2e-323), f'{{what}}: get_shell_grid({{i}}) does not carry shell {{i}}'
+"""
+
+
+def _run_combo(ctx: Ctx, key, what, call, want, method, seed, center, pts, wts, may_reject=False, witness=None):
+    """one documented call (source text `call`, evaluated with rgrid / center / method in scope) against the reference"""
+    code = SNIP_COMBO.format(pts=None if pts is None else [float(v) for v in pts], wts=None if wts is None else [float(v) for v in wts], method=method,
+                             seed=int(seed), center=[float(v) for v in center], what=what, call=call, may_reject=bool(may_reject), want=[list(map(int, x)) for x in want])
+    ctx.count(["combo", what, method, want[:6], seed, list(center)], nontrivial=True, tag="oracle:combo:" + key.split(":")[-1] + ":" + what.split(" [")[0][:60])
+    try:
+        exec(compile(code, "<c05-combo>", "exec"), {"__name__": "c05_combo"})
+    except AssertionError as e:
+        ctx.fail("oracle", key, str(e)[:400] + f" [method={method}]", witness=witness or {"call": call, "method": method}, snippet=code)
+    except Exception as e:  # noqa: BLE001
+        ctx.fail("oracle", key, f"{what}: raised {type(e).__name__}: {e} [method={method}]", witness=witness or {"call": call, "method": method}, snippet=code)
+
+
+def _rot_variants(rng, n):
+    """(source text of the rotate argument, seed it stands for, may be rejected): int / bool / NumPy integer"""
+    k = rng.randrange(1, 10 ** 5)
+    return [(str(k), k, False), ("0", 0, False), ("True", 1, False), ("False", 0, False),
+            # a NumPy integer is accepted by the constructor's own check and rejected by the shell loop (ValueError): never a wrong grid
+            (f"np.int64({k})", k, True), ("np.int32(0)", 0, True)]
+
+
+def _oracle_combinations(ctx: Ctx, ag, ang, bg, budget):
+    rng = ctx.rng
+    large = budget != "small"
+    tabs = _preset_tables()
+    for k in range(12 if not large else 160):
+        method = METHODS[k % 4]
+        pairs = _supported(ang, method)
+        dmax = MAXDEG[method]
+        smax = max(sz for d, sz in pairs if d <= dmax)
+        pts, wts = _ordered_rgrid(ctx, ORDERS[k % len(ORDERS)])
+        n = len(pts)
+        cen = [float(rng.randrange(-4, 5)) for _ in range(3)]
+        zero = [0.0, 0.0, 0.0]
+        rot_src, seed, may_reject = rng.choice(_rot_variants(rng, n))
+        wit = {"method": method, "rgrid_points": pts.tolist(), "rgrid_weights": wts.tolist(), "rotate": rot_src, "center": cen}
+
+        # ---- from_pruned: d_sectors only / s_sectors only / both (the sizes win, d_sectors is ignored) ---------------------------
+        S = rng.randrange(1, 4)
+        rsect = sorted(rng.uniform(0.05, 4) for _ in range(S))
+        radius = rng.choice([1.0, rng.uniform(0.3, 3.0)])
+        bounds = np.array(rsect) * radius
+        if rng.random() < 0.5:
+            pts[rng.randrange(n)] = bounds[rng.randrange(S)]
+        sector = [sum(1 for b in bounds if b < r) for r in pts]
+        dsec = [rng.randrange(0, dmax + 1) for _ in range(S + 1)]
+        ssec = [rng.randrange(0, smax + 1) for _ in range(S + 1)]
+        # make sure "both" can tell which one was used: the two requests resolve differently in at least one occupied sector
+        for kk in set(sector):
+            if _least_degree(pairs, dsec[kk]) == _least_size(pairs, ssec[kk]):
+                dsec[kk] = (dsec[kk] + 7) % (dmax + 1)
+        want_d = [_least_degree(pairs, dsec[kk]) for kk in sector]
+        want_s = [_least_size(pairs, ssec[kk]) for kk in sector]
+        w2 = dict(wit, radius=radius, r_sectors=rsect, d_sectors=dsec, s_sectors=ssec, rgrid_points=pts.tolist())
+        key = "atomgrid.AtomGrid.from_pruned:arguments"
+        cen_src = rng.choice([("center=None, ", zero), (f"center=np.array({cen!r}), ", cen), (f"center={cen!r}, ", cen), ("", zero)])
+        tail = f"{cen_src[0]}rotate={rot_src}, method=method)"
+        variants = [
+            ("from_pruned(d_sectors only, by keyword)", f"AtomGrid.from_pruned(rgrid, {radius!r}, r_sectors={rsect!r}, d_sectors={dsec!r}, {tail}", want_d),
+            ("from_pruned(d_sectors only, positional)", f"AtomGrid.from_pruned(rgrid, {radius!r}, {rsect!r}, {dsec!r}, {tail}", want_d),
+            ("from_pruned(s_sectors only, d_sectors=None)", f"AtomGrid.from_pruned(rgrid, {radius!r}, {rsect!r}, None, s_sectors={ssec!r}, {tail}", want_s),
+            ("from_pruned(s_sectors only, d_sectors omitted)", f"AtomGrid.from_pruned(rgrid, {radius!r}, r_sectors={rsect!r}, s_sectors=np.array({ssec!r}), {tail}", want_s),
+            ("from_pruned(d_sectors and s_sectors: the documentation says s_sectors is used)",
+             f"AtomGrid.from_pruned(rgrid, {radius!r}, {rsect!r}, {dsec!r}, s_sectors={ssec!r}, {tail}", want_s),
+            ("from_pruned(d_sectors and s_sectors as arrays: the documentation says s_sectors is used)",
+             f"AtomGrid.from_pruned(rgrid, radius={radius!r}, r_sectors=np.array({rsect!r}), d_sectors=np.array({dsec!r}), s_sectors=np.array({ssec!r}), {tail}", want_s),
+        ]
+        for what, call, want in (variants if large or k < 4 else rng.sample(variants[:4], 2) + variants[4:]):
+            _run_combo(ctx, key, what, call, want, method, seed, cen_src[1], pts, wts, may_reject, dict(w2, call=call))
+
+        # ---- AtomGrid(...): degrees only / sizes only / both (the sizes win, degrees are ignored) ------------------------------------
+        degs = [rng.randrange(0, dmax + 1) for _ in range(n)]
+        sizes = [rng.randrange(0, smax + 1) for _ in range(n)]
+        for i in range(n):
+            if _least_degree(pairs, degs[i]) == _least_size(pairs, sizes[i]):
+                degs[i] = (degs[i] + 7) % (dmax + 1)
+        d1, s1 = degs[0], sizes[0]
+        key = "atomgrid.AtomGrid:arguments"
+        w3 = dict(wit, degrees=degs, sizes=sizes)
+        variants = [
+            ("AtomGrid(degrees only, positional)", f"AtomGrid(rgrid, {degs!r}, {tail}", [_least_degree(pairs, d) for d in degs]),
+            ("AtomGrid(one degree for all shells)", f"AtomGrid(rgrid, degrees=[{d1}], {tail}", [_least_degree(pairs, d1)] * n),
+            ("AtomGrid(sizes only, degrees=None)", f"AtomGrid(rgrid, None, sizes={sizes!r}, {tail}", [_least_size(pairs, x) for x in sizes]),
+            ("AtomGrid(sizes only, degrees left at the default)", f"AtomGrid(rgrid, sizes=np.array({sizes!r}), {tail}", [_least_size(pairs, x) for x in sizes]),
+            ("AtomGrid(one size for all shells)", f"AtomGrid(rgrid, None, sizes=[{s1}], {tail}", [_least_size(pairs, s1)] * n),
+            ("AtomGrid(degrees and sizes: the documentation says sizes are used)", f"AtomGrid(rgrid, {degs!r}, sizes={sizes!r}, {tail}", [_least_size(pairs, x) for x in sizes]),
+            ("AtomGrid(degrees and sizes as arrays: the documentation says sizes are used)",
+             f"AtomGrid(rgrid, degrees=np.array({degs!r}), sizes=np.array({sizes!r}), {tail}", [_least_size(pairs, x) for x in sizes]),
+        ]
+        for what, call, want in (variants if large or k < 4 else rng.sample(variants[:5], 2) + variants[5:]):
+            _run_combo(ctx, key, what, call, want, method, seed, cen_src[1], pts, wts, may_reject, dict(w3, call=call))
+
+    # ---- from_preset: with / without rgrid, centre None / given / omitted, rotate int / bool / NumPy integer, method positional / keyword
+    utils = importlib.import_module("grid.utils")
+    small = [(p, z) for p in ("coarse", "medium", "sg_0", "g1") for z in sorted(tabs[p][0]) if z <= 18 and (p, z) not in (("sg_0", 7), ("sg_0", 15))]
+    for k in range(8 if not large else 80):
+        p, z = rng.choice(small)
+        method = METHODS[k % 4] if k % 2 else "lebedev"
+        pairs = _supported(ang, method)
+        rad, npt, nshell = tabs[p][0][z]
+        with_rgrid = k % 4 != 3 or z not in utils._DEFAULT_POWER_RTRANSFORM_PARAMS or rad.dtype.kind == "i"
+        if with_rgrid:
+            nr = int(rad.sum()) if rad.dtype.kind == "i" else rng.randrange(3, 9)
+            pts = np.array([rng.uniform(0, float(rad.max()) * 1.3 if rad.dtype.kind != "i" else 12.0) for _ in range(nr)])
+            wts = np.array([rng.uniform(0.1, 1.0) for _ in range(nr)])
+            rp = pts
+        else:  # the element's default radial grid: its nodes are read back from the grid (their range is checked by `default-rgrid`)
+            pts = wts = None
+            rmin, rmax, nr = utils._DEFAULT_POWER_RTRANSFORM_PARAMS[z]
+            rt, od = importlib.import_module("grid.rtransform"), importlib.import_module("grid.onedgrid")
+            b = 1.0e-10 / 5.29177210903e-11
+            rp = rt.PowerRTransform(rmin * b, rmax * b).transform_1d_grid(od.UniformInteger(nr)).points
+            if any(abs(float(bb) / float(r) - 1) < 1e-6 for bb in rad for r in rp):
+                continue  # a default node within the CODATA uncertainty of a sector bound: the reference cannot place it
+        want = [_least_size(pairs, t) if t is not None else None for t in _tabulated_sizes(rad, npt, rp)]
+        if any(x is None for x in want) or sum(x[1] for x in want) > 12000:
+            continue
+        cen = [float(rng.randrange(-4, 5)) for _ in range(3)]
+        rot_src, seed, may_reject = rng.choice(_rot_variants(rng, nr))
+        rg_src = "rgrid" if with_rgrid else rng.choice(["None", ""])
+        style = rng.choice(["positional", "keyword", "mixed"])
+        cchoice = rng.choice(["None", "given", "omitted"])
+        if style == "positional" or (rg_src == "" and False):
+            call = f"AtomGrid.from_preset({z}, {p!r}, {rg_src or 'None'}, {'None' if cchoice != 'given' else 'np.array(' + repr(cen) + ')'}, {rot_src}, method)"
+        elif style == "keyword":
+            call = (f"AtomGrid.from_preset(atnum={z}, preset={p!r}, " + (f"rgrid={rg_src}, " if rg_src else "")
+                    + ("center=None, " if cchoice == "None" else f"center={cen!r}, " if cchoice == "given" else "") + f"rotate={rot_src}, method=method)")
+        else:
+            call = (f"AtomGrid.from_preset({z}, {p!r}, " + (f"{rg_src}, " if rg_src else "rgrid=None, ")
+                    + ("center=None, " if cchoice == "None" else f"center=np.array({cen!r}), " if cchoice == "given" else "") + f"rotate={rot_src}, method=method)")
+        what = f"from_preset({'with' if with_rgrid else 'without'} rgrid, center {cchoice}, {style} arguments) [{p}, Z={z}]"
+        _run_combo(ctx, "atomgrid.AtomGrid.from_preset:arguments", what, call, want, method, seed, cen if cchoice == "given" else [0.0, 0.0, 0.0], pts, wts, may_reject,
+                   {"preset": p, "atnum": z, "method": method, "call": call, "rgrid_points": None if pts is None else pts.tolist()})
+
+
 def _oracle_kinds(ctx: Ctx, ag, ang, bg, budget):
     """Implementation-side (no model): the grid does not depend on the container / dtype of its arguments, True / False
     are the seeds 1 / 0, rebuilding gives the same grid, and a permutation of the radial nodes permutes the shells."""
@@ -1951,6 +2127,21 @@ def oracle_at(ctx: Ctx, failure):
                 if g.size <= 20000:
                     _oracle_grid(ctx, ag, ang, bg, method, pts, wts, [int(d) for d in g.degrees], rot, cen, f"atomgrid.AtomGrid.from_preset:{p}")
             return
+        if op == "AtomGrid" and isinstance(w.get("sizes"), list) and w.get("sizes") and w.get("sizes_as", "list") != "tuple":
+            pairs = _supported(ang, method)
+            sizes = list(w["sizes"])
+            rot = w.get("rotate")
+            rot = rot[1] if isinstance(rot, list) else rot
+            cen = w.get("center")
+            if len(sizes) in (1, len(pts)) and all(_least_size(pairs, x) is not None for x in sizes) and isinstance(rot, (int, bool)) \
+                    and 0 <= int(rot) < 2 ** 32 - len(pts) and (cen is None or (isinstance(cen, list) and len(cen) == 3)):
+                want = [_least_size(pairs, x) for x in (sizes * len(pts) if len(sizes) == 1 else sizes)]
+                degs = w.get("degrees")
+                dsrc = "None" if not isinstance(degs, list) else repr(list(degs))
+                cen = [0.0, 0.0, 0.0] if cen is None else cen
+                _run_combo(ctx, "atomgrid.AtomGrid:arguments", "AtomGrid(sizes given: the documentation says sizes are used)",
+                           f"AtomGrid(rgrid, {dsrc}, sizes={sizes!r}, center={cen!r}, rotate={int(rot)}, method=method)", want, method, int(rot), cen, pts, wts, False, w)
+            return
         if op in ("AtomGrid", "_generate_atomic_grid"):
             degs = w.get("degrees")
             rot = w.get("rotate")
@@ -1965,6 +2156,22 @@ def oracle_at(ctx: Ctx, failure):
             if isinstance(degs, list) and degs and w.get("sizes") is None and isinstance(rot, (int, bool)) and (cen is None or len(cen) == 3):
                 if all(0 <= d <= max(p[0] for p in _supported(ang, method)) for d in degs) and len(degs) in (1, len(pts)) and 0 <= int(rot) < 2 ** 32 - len(pts):
                     _oracle_grid(ctx, ag, ang, bg, method, pts, wts, degs, int(rot), None if cen is None else np.array(cen, dtype=float), "atomgrid.AtomGrid")
+        elif op == "from_pruned" and w.get("s_sectors") and w.get("r_sectors") is not None:
+            # s_sectors given (alone or together with d_sectors): the documentation says the sizes are used
+            rsect, ssec, dsec = list(w["r_sectors"]), list(w["s_sectors"]), w.get("d_sectors")
+            radius = w.get("radius", 1.0)
+            pairs = _supported(ang, method)
+            if len(ssec) == len(rsect) + 1 and all(_least_size(pairs, x) is not None for x in ssec):
+                bounds = np.array(rsect) * radius
+                want = [_least_size(pairs, ssec[sum(1 for b in bounds if b < r)]) for r in pts]
+                rot = w.get("rotate", 0)
+                rot = int(rot) if isinstance(rot, (int, bool)) else 0
+                cen = w.get("center")
+                cen = [0.0, 0.0, 0.0] if not isinstance(cen, list) else cen
+                call = (f"AtomGrid.from_pruned(rgrid, {radius!r}, r_sectors={rsect!r}, d_sectors={None if dsec is None else list(dsec)!r}, s_sectors={ssec!r}, "
+                        f"center={cen!r}, rotate={rot}, method=method)")
+                _run_combo(ctx, "atomgrid.AtomGrid.from_pruned:arguments", "from_pruned(s_sectors given: the documentation says s_sectors is used)", call, want,
+                           method, rot, cen, pts, wts, False, w)
         elif op in ("from_pruned", "_find_degrees_for_radial_points") and w.get("d_sectors"):  # noqa: E501
             rsect = w.get("r_sectors")
             dsec = w["d_sectors"]
